@@ -11,7 +11,6 @@ CONF_CFG = """CONSTANTS MaxRetx = %d
   WithWriteFailures = TRUE
 INIT TInit
 NEXT TNext
-INVARIANT NotDone
 CONSTRAINT HW
 POSTCONDITION Post
 CHECK_DEADLOCK FALSE
